@@ -77,22 +77,14 @@ static L maxl(L a, L b) { return a > b ? a : b; }
 // kept as a separate query: it is the region where leading dimensions and strides decouple).
 // LAYOUT = 3 bits (A, B, C): 1 = row-major, 0 = column-major; compile-time so that each of the eight layout branches of gemm_n is one query
 static void mat_layout_fixed(int rowmajor, L rows, L cols, L& s0, L& s1) { L pad = vf_range(0, PAD); if(rowmajor) { s1 = 1; s0 = cols + pad; } else { s0 = 1; s1 = rows + pad; } }
-template<bool UnitExtent, int LAYOUT> static void t_gemm() {   // C = alpha*A*B + beta*C, A MxK, B KxN, C MxN
-  L M = vf_range(1, NB); L N = vf_range(1, NB); L K = vf_range(1, NB);
-  vf_assume(UnitExtent == (M == 1 || N == 1 || K == 1));
-  L as0, as1, bs0, bs1, cs0, cs1; mat_layout_fixed((LAYOUT >> 2) & 1, M, K, as0, as1); mat_layout_fixed((LAYOUT >> 1) & 1, K, N, bs0, bs1); mat_layout_fixed(LAYOUT & 1, M, N, cs0, cs1);
-  L oa = vf_range(0, 3); L ob = vf_range(0, 3); L oc = vf_range(0, 3);
-  auto A = mk2(g_ma + oa, as0, as1, M, K); auto B = mk2(g_mb + ob, bs0, bs1, K, N); auto C = mk2(g_mc + oc, cs0, cs1, M, N);
-  bool rejected = false;
-  try { multi::blas::gemm(2.0, A, B, 3.0, C); } catch(...) { rejected = true; }
-  if(!rejected) {
+static void dgemm_oracle(L M, L N, L K, L as0, L as1, L bs0, L bs1, L cs0, L cs1, L oa, L ob, L oc, double alpha, double beta) {
     vf_assert(r_calls == 1 && r_which == 1, "exactly one dgemm call");
     vf_assert((r_ta == 'N' || r_ta == 'T' || r_ta == 'C') && (r_tb == 'N' || r_tb == 'T' || r_tb == 'C'), "transposition flags are valid");
     vf_assert(r_m >= 0 && r_n >= 0 && r_k == K, "dimensions are valid and k is the contracted dimension");
     vf_assert(r_lda >= (r_ta == 'N' ? maxl(1, r_m) : maxl(1, r_k)), "lda satisfies the BLAS precondition (else xerbla)");
     vf_assert(r_ldb >= (r_tb == 'N' ? maxl(1, r_k) : maxl(1, r_n)), "ldb satisfies the BLAS precondition (else xerbla)");
     vf_assert(r_ldc >= maxl(1, r_m), "ldc satisfies the BLAS precondition (else xerbla)");
-    vf_assert(r_alpha == 2.0 && r_beta == 3.0, "alpha and beta are passed unchanged");
+    vf_assert(r_alpha == alpha && r_beta == beta, "alpha and beta are the ones the form prescribes");
     // (forall x. T(x)) or (forall y. D(y)) with two independent symbolic index triples
     L i = vf_range(0, NB - 1); L j = vf_range(0, NB - 1); L l = vf_range(0, NB - 1); vf_assume(i < M && j < N && l < K);
     L i2 = vf_range(0, NB - 1); L j2 = vf_range(0, NB - 1); L l2 = vf_range(0, NB - 1); vf_assume(i2 < M && j2 < N && l2 < K);
@@ -107,8 +99,35 @@ template<bool UnitExtent, int LAYOUT> static void t_gemm() {   // C = alpha*A*B 
       && (r_a - g_ma) + opaddr(r_ta, r_lda, i2, l2) == oa + i2 * as0 + l2 * as1
       && (r_b - g_mb) + opaddr(r_tb, r_ldb, l2, j2) == ob + l2 * bs0 + j2 * bs1;
     vf_assert(Tf || Df, "the recorded dgemm arguments denote C(i,j), A(i,l), B(l,j) for every index triple (direct or transposed form)");
-  }
 }
+template<bool UnitExtent, int LAYOUT> static void t_gemm() {   // C = alpha*A*B + beta*C, A MxK, B KxN, C MxN
+  L M = vf_range(1, NB); L N = vf_range(1, NB); L K = vf_range(1, NB);
+  vf_assume(UnitExtent == (M == 1 || N == 1 || K == 1));
+  L as0, as1, bs0, bs1, cs0, cs1; mat_layout_fixed((LAYOUT >> 2) & 1, M, K, as0, as1); mat_layout_fixed((LAYOUT >> 1) & 1, K, N, bs0, bs1); mat_layout_fixed(LAYOUT & 1, M, N, cs0, cs1);
+  L oa = vf_range(0, 3); L ob = vf_range(0, 3); L oc = vf_range(0, 3);
+  auto A = mk2(g_ma + oa, as0, as1, M, K); auto B = mk2(g_mb + ob, bs0, bs1, K, N); auto C = mk2(g_mc + oc, cs0, cs1, M, N);
+  bool rejected = false;
+  try { multi::blas::gemm(2.0, A, B, 3.0, C); } catch(...) { rejected = true; }
+  if(!rejected) dgemm_oracle(M, N, K, as0, as1, bs0, bs1, cs0, cs1, oa, ob, oc, 2.0, 3.0);
+}
+// lazy-range and operator forms of gemm on views: C = gemm(alpha, A, B) (copy of the range: beta = 0), C += gemm(alpha, A, B) (beta = 1),
+// C = f * gemm(alpha, A, B) (alpha scaled), +gemm(...) (decays into a new array: row-major C of exactly M x N elements)
+template<int LAYOUT> static void t_gemm_forms() {
+  L M = vf_range(1, NB); L N = vf_range(1, NB); L K = vf_range(1, NB);
+  L as0, as1, bs0, bs1, cs0, cs1; mat_layout_fixed((LAYOUT >> 2) & 1, M, K, as0, as1); mat_layout_fixed((LAYOUT >> 1) & 1, K, N, bs0, bs1); mat_layout_fixed(LAYOUT & 1, M, N, cs0, cs1);
+  L oa = vf_range(0, 3); L ob = vf_range(0, 3); L oc = vf_range(0, 3);
+  auto A = mk2(g_ma + oa, as0, as1, M, K); auto B = mk2(g_mb + ob, bs0, bs1, K, N); auto C = mk2(g_mc + oc, cs0, cs1, M, N);
+  L form = vf_range(0, 2);
+  bool rejected = false; double alpha = 2.0, beta = 0.0;
+  try {
+    if(form == 0) { C = multi::blas::gemm(2.0, A, B); }
+    else if(form == 1) { C += multi::blas::gemm(2.0, A, B); beta = 1.0; }
+    else { C = 4.0 * multi::blas::gemm(2.0, A, B); alpha = 8.0; }
+  } catch(...) { rejected = true; }
+  if(!rejected) dgemm_oracle(M, N, K, as0, as1, bs0, bs1, cs0, cs1, oa, ob, oc, alpha, beta);
+}
+#define GF(L) VF_HARNESS(gemm_forms_l##L) { t_gemm_forms<L>(); vf_reach("gemm_forms_l" #L); }
+GF(0) GF(2) GF(5) GF(7)
 #define G(L) VF_HARNESS(gemm_l##L) { t_gemm<false, L>(); vf_reach("gemm_l" #L); } VF_HARNESS(gemm_unit_l##L) { t_gemm<true, L>(); vf_reach("gemm_unit_l" #L); }
 G(0) G(1) G(2) G(3) G(4) G(5) G(6) G(7)
 
